@@ -260,7 +260,10 @@ macro_rules! fam_uint {
             }
             vals.sort();
             vals.dedup();
-            let vals: Vec<BigUint> = if ctx.thorough() { vals } else { thin(vals.iter().map(|v| from_big(v, $n)).collect(), if $n <= 4 { 90 } else { 40 }).iter().map(|l| to_big(l)).collect() };
+            // thorough: complete set up to 8 limbs; 16 and 32 limbs (0.6 / 2 ms per gcd) stride-thinned to 260 / 140 values
+            let vals: Vec<BigUint> = if ctx.thorough() && $n >= 16 {
+                thin(vals.iter().map(|v| from_big(v, $n)).collect(), if $n >= 32 { 140 } else { 260 }).iter().map(|l| to_big(l)).collect()
+            } else if ctx.thorough() { vals } else { thin(vals.iter().map(|v| from_big(v, $n)).collect(), if $n <= 4 { 90 } else { 40 }).iter().map(|l| to_big(l)).collect() };
             let k = vals.len();
             ctx.par_for("gcd", &wname, k * k, |i, l| {
                 let (a, b) = (&vals[i / k], &vals[i % k]);
@@ -322,6 +325,11 @@ fn fam_boxed(ctx: &Ctx) {
     for n in lens {
         let wname = format!("Boxed<{n}>");
         let mut cs_ = cases(n, ctx);
+        if ctx.thorough() && n > 8 && cs_.len() > 12_000 {
+            // boxed safegcd costs 1.4 ms (n = 30) per inversion and every case runs ~12 of them: stride-thin to 12 000 cases
+            let st = cs_.len().div_ceil(12_000);
+            cs_ = cs_.into_iter().step_by(st).collect();
+        }
         if n > 3 && !ctx.thorough() {
             cs_ = cs_.into_iter().filter(|(_, m)| m.bits() > 9).step_by(if n > 9 { 7 } else { 2 }).collect();
         }
